@@ -2,9 +2,10 @@
 (* Judging of observations of the real xrspatial.a_star_search (C14).  One case = one      *)
 (* public call, recorded by harness/workers/astar_worker.py:                               *)
 (*   H, W, cross (H x W, 1 = crossable), conn                                              *)
-(*   yax, xax  = [den, o, s] exact coordinate axes (PixelId.tla), sp, gp = <<py, px>> the   *)
+(*   yax, xax  = [den, o, s, res] exact coordinate axes (PixelId.tla; res = numerator of a    *)
+(*               `res` attribute of the raster, 0 = none), sp, gp = <<py, px>> the            *)
 (*               start / goal points as numerators over the axis denominators              *)
-(*   snapS, snapG (0/1)                                                                    *)
+(*   snapS, snapG (0/1); untouched (1 = surface values, coordinates and attrs unchanged)     *)
 (*   path      = observed output, H x W of <<a,b>> (a + b sqrt2; <<-1,-1>> NaN; <<-2,-2>> no surd) *)
 (*   cs, cg    = <<py, px>> the cells the search was really started with (step model only)  *)
 (*   pix       = << <<py,px>>, <<py,px>> >> what _get_pixel_id answered for start and goal     *)
@@ -33,8 +34,11 @@ EM == [H |-> Tr.H, W |-> Tr.W, cross |-> CrossFn, conn |-> Tr.conn, gy |-> Tr.cg
 Path == [i \in 0..NC-1 |-> Tr.path[(i \div Tr.W) + 1][(i % Tr.W) + 1]]
 
 \* ------------------------------------------------------------------ the property on the observed output
-YAx == [den |-> Tr.yax.den, o |-> Tr.yax.o, s |-> Tr.yax.s, n |-> Tr.H]
-XAx == [den |-> Tr.xax.den, o |-> Tr.xax.o, s |-> Tr.xax.s, n |-> Tr.W]
+\* A `res` attribute fixes the cell size (utils.get_dataarray_resolution prefers it to the coordinate
+\* spacing): the cell centres the caller's coordinates are measured against are then o, o +- res, ...
+EffStep(a) == IF a.res = 0 THEN a.s ELSE IF a.s < 0 THEN -a.res ELSE a.res
+YAx == [den |-> Tr.yax.den, o |-> Tr.yax.o, s |-> EffStep(Tr.yax), n |-> Tr.H]
+XAx == [den |-> Tr.xax.den, o |-> Tr.xax.o, s |-> EffStep(Tr.xax), n |-> Tr.W]
 Named(pt) == {r * Tr.W + c : r \in NearestIdx(YAx, pt[1]), c \in NearestIdx(XAx, pt[2])}
 Snapped(cells, flag) == IF flag = 1 THEN UNION {SnapSet(EA, c) : c \in cells} ELSE cells
 Starts == Snapped(Named(Tr.sp), Tr.snapS)      \* admissible start cells (one, unless ties)
@@ -42,7 +46,8 @@ Goals  == Snapped(Named(Tr.gp), Tr.snapG)
 P == {i \in 0..NC-1 : Path[i] # NAN}
 
 Verdict ==
-  IF \E i \in 0..NC-1 : Path[i] = BAD THEN "bridge_value_is_not_a_plus_b_sqrt2"
+  IF Tr.untouched # 1 THEN "input_surface_modified"
+  ELSE IF \E i \in 0..NC-1 : Path[i] = BAD THEN "bridge_value_is_not_a_plus_b_sqrt2"
   ELSE IF P = {} THEN
      \* all NaN is right iff for some admissible (s, t) no route exists
      (IF Starts = {} \/ Goals = {} \/ (\E s \in Starts : LET D == ShortestMap(EA, s) IN \E t \in Goals : D[t] = INF)
